@@ -221,7 +221,40 @@ fn sign(st: &St, tx: &csl::Transaction) -> Result<Vec<u8>, csl::JsError> {
     Ok(ft.to_bytes())
 }
 
+fn run_minada(out: &mut Out, sc: usize, s: &J) {
+    for m in s["minada"].as_array().unwrap() {
+        let ev = match call(|| output_of(&m["out"])) {
+            Outcome::Ok(o) => {
+                let cpb = bn_of(&m["cpb_n"]);
+                let r = call(|| csl::min_ada_for_output(&o, &csl::DataCost::new_coins_per_byte(&cpb))).to_json(|c| obj(vec![("v_n", jbn(&c))]));
+                json!({"ev": "MinAda", "sc": sc, "out": jbytes(&o.to_bytes()), "cpb_n": m["cpb_n"], "r": r})
+            }
+            _ => json!({"ev": "SetupErr", "sc": sc}),
+        };
+        out.ev(ev);
+    }
+}
+
+/// output lattice x coins-per-byte values chosen so that the required coin sits on a CBOR width boundary
+fn gen_minada(rng: &mut Rng) -> J {
+    let mut calls = vec![];
+    for _ in 0..12 {
+        let na = *rng.pick(&[0u64, 0, 1, 3, 10]);
+        let coin = *rng.pick(&[0u64, 0, 1, 23, 24, 255, 256, 65535, 65536, 1_000_000, 0xffff_ffff, 0x1_0000_0000, u64::MAX]);
+        let mut o = json!({"to": {"kind": *rng.pick(&["ent", "base", "byron", "ptr", "script_ent"]), "k": 1 + rng.below(5)}, "value": rvalue(rng, coin, na)});
+        match rng.below(6) { 0 => { o["datum"] = json!({"hash": 1}); } 1 => { o["datum"] = json!({"inline": rng.below(1 << 20)}); } 2 => { o["datum"] = json!({"inline_bytes": rng.below(70)}); } 3 => { o["ref_script"] = json!(3); } _ => {} }
+        // size of the output at this coin, to aim cpb at the boundaries 24, 2^8, 2^16, 2^32 of cpb * (160 + size)
+        let size = output_of(&o).map(|x| x.to_bytes().len() as u64).unwrap_or(60);
+        let target = *rng.pick(&[24u64, 256, 65536, 65536, 1 << 32, 1 << 32]);
+        let base = target / (160 + size + rng.below(6));
+        let cpb = match rng.below(5) { 0 => *rng.pick(&[0u64, 1, 4310, 34482, 1 << 32, u64::MAX / 300]), _ => (base + rng.below(3)).saturating_sub(1) };
+        calls.push(json!({"out": o, "cpb_n": jn(cpb)}));
+    }
+    json!({"minada": calls})
+}
+
 pub fn run_one(out: &mut Out, sc: usize, s: &J) {
+    if s.get("minada").is_some() { return run_minada(out, sc, s); }
     let cfg = match call(|| config(&s["pp"])) { Outcome::Ok(c) => c, _ => { out.ev(json!({"ev": "SetupErr", "sc": sc})); return; } };
     let mut st = St { tb: csl::TransactionBuilder::new(&cfg), env: BTreeMap::new(), collateral: csl::TxInputsBuilder::new(),
         vkeys: BTreeSet::new(), byrons: BTreeSet::new(), inputs_builder_signers: BTreeMap::new(),
@@ -291,6 +324,8 @@ fn rvalue(rng: &mut Rng, coin: u64, assets: u64) -> J {
 pub fn gen(rng: &mut Rng) -> J {
     let width_coin = |rng: &mut Rng| -> u64 { match rng.below(6) { 0 => 1_000_000 + rng.below(3_000_000), 1 => 65_536 * 16 + rng.below(100), 2 => (1u64 << 32) + rng.below(2_000_000) - 1_000_000,
         3 => 5_000_000_000 + rng.below(1000), 4 => 2_000_000 + rng.below(400_000), _ => 1_000_000 + rng.below(100_000_000) } };
+    let pp = json!({"a": 44, "b": 155381, "cpb": *rng.pick(&[4310u64, 4310, 4310, 1, 0, 34482]), "maxval": *rng.pick(&[5000u64, 5000, 500, 200]), "maxtx": *rng.pick(&[16384u64, 16384, 4000]),
+                    "kd_n": jn(2_000_000), "pd_n": jn(500_000_000), "prefer_pure_change": rng.chance(1, 4), "no_burn": rng.chance(1, 4)});
     let nu = 1 + rng.below(5);
     let mut utxo = vec![];
     for u in 1..=nu {
@@ -340,10 +375,53 @@ pub fn gen(rng: &mut Rng) -> J {
     if rng.chance(1, 5) { ops.push(json!({"op": "SetAux", "label_n": jn(rng.below(1000)), "len": 1 + rng.below(60)})); }
     if rng.chance(1, 5) { ops.push(json!({"op": "SetTtl", "n": jn(rng.edge_u64())})); }
     if rng.chance(1, 8) { ops.push(json!({"op": "SetMinFee", "n": jn(150_000 + rng.below(400_000))})); }
+    // collateral: inputs (pure ADA or asset-carrying), then one of the three helpers (before or after balancing)
+    let mut col_after: Vec<J> = vec![];
+    let col = rng.chance(1, 3);
+    let mut col_pct: Option<u64> = None;
+    if col {
+        let cu = 1 + rng.below(nu);
+        ops.push(json!({"op": "AddCollateral", "u": cu}));
+        let cv = &utxo[(cu - 1) as usize]["value"];
+        let ccoin = u64_of(&cv["coin_n"]);
+        let cassets = cv["assets"].clone();
+        let to = json!({"kind": *rng.pick(&["ent", "base"]), "k": 16});
+        let h = match rng.below(6) {
+            0 | 1 => { // explicit return: assets equal / fewer / more / different than the inputs'
+                let tot = match rng.below(3) { 0 => 1 + rng.below(ccoin.max(2) - 1), 1 => ccoin / 2, _ => 200_000 + rng.below(2_000_000) }.min(ccoin);
+                let mut assets = cassets.clone();
+                match rng.below(5) { 0 => { if let Some(a) = assets.as_array_mut() { a.pop(); } } 1 => { assets.as_array_mut().unwrap().push(json!({"p": [3], "n": [1], "q_n": jn(5)})); }
+                    2 => { if let Some(a) = assets.as_array_mut() { if !a.is_empty() { a[0]["q_n"] = jn(1); } } } _ => {} }
+                let mut o = json!({"op": "SetCollateralReturnAndTotal", "to": to, "value": {"coin_n": jn(ccoin - tot), "assets": assets}});
+                match rng.below(4) { 0 => { o["datum"] = json!({"inline_bytes": 1 + rng.below(64)}); } 1 => { o["datum"] = json!({"hash": 5}); } _ => {} }
+                // half of the time aim the return coin at the min-ADA boundary of this very output (the library's own figure is
+                // used for aiming only; the verdict is the validator's)
+                if rng.chance(1, 2) {
+                    if let Ok(full) = output_of(&o) {
+                        let dc = csl::DataCost::new_coins_per_byte(&csl::BigNum::from(pp["cpb"].as_u64().unwrap()));
+                        let hi: u64 = csl::min_ada_for_output(&full, &dc).map(|x| x.into()).unwrap_or(1_000_000);
+                        let lo: u64 = csl::min_ada_for_output(&csl::TransactionOutput::new(&full.address(), &full.amount()), &dc).map(|x| x.into()).unwrap_or(hi);
+                        let c = lo.saturating_sub(3000) + rng.below(hi.saturating_sub(lo) + 6000);
+                        if c <= ccoin { o["value"]["coin_n"] = jn(c); }
+                    }
+                }
+                o
+            }
+            2 | 3 => json!({"op": "SetTotalCollateralAndReturn", "to": to, "n": jn(match rng.below(4) { 0 => ccoin, 1 => ccoin.saturating_sub(900_000 + rng.below(400_000)), 2 => 300_000 + rng.below(1_000_000), _ => ccoin + 1 })}),
+            _ => { col_pct = Some(*rng.pick(&[150u64, 100, 1, 1000])); J::Null }
+        };
+        if !h.is_null() { if rng.chance(1, 2) { ops.push(h); } else { col_after.push(h); } }
+    }
     // shuffle the non-balancing operations: the order of issuing them must not matter
     for i in (1..ops.len()).rev() { let j = rng.below(i as u64 + 1) as usize; ops.swap(i, j); }
     let to = json!({"kind": *rng.pick(&["ent", "base", "byron"]), "k": 15});
-    if select {
+    if let Some(pct) = col_pct {
+        let us: Vec<u64> = (1..=nu).collect();
+        ops.retain(|o| o["op"] != "AddCollateral");
+        let cu = 1 + rng.below(nu);
+        ops.insert(0, json!({"op": "AddCollateral", "u": cu}));
+        ops.push(json!({"op": "AddInputsFromAndChangeWithCollateralReturn", "strat": *rng.pick(&["LargestFirstMultiAsset", "RandomImproveMultiAsset"]), "us": us, "to": to, "seed": rng.below(1000), "pct_n": jn(pct)}));
+    } else if select {
         let us: Vec<u64> = (1..=nu).collect();
         ops.push(json!({"op": "AddInputsFromAndChange", "strat": *rng.pick(&["LargestFirstMultiAsset", "RandomImproveMultiAsset"]), "us": us, "to": to, "seed": rng.below(1000)}));
     } else if rng.chance(1, 10) {
@@ -351,13 +429,13 @@ pub fn gen(rng: &mut Rng) -> J {
     } else {
         ops.push(json!({"op": "AddChange", "to": to}));
     }
+    ops.extend(col_after);
     ops.push(json!({"op": "Build"}));
     if rng.chance(1, 4) { ops.push(json!({"op": "BuildAgain"})); }
-    let pp = json!({"a": 44, "b": 155381, "cpb": *rng.pick(&[4310u64, 4310, 4310, 1, 0, 34482]), "maxval": *rng.pick(&[5000u64, 5000, 500, 200]), "maxtx": *rng.pick(&[16384u64, 16384, 4000]),
-                    "kd_n": jn(2_000_000), "pd_n": jn(500_000_000), "prefer_pure_change": rng.chance(1, 4), "no_burn": rng.chance(1, 4)});
     json!({"pp": pp, "utxo": utxo, "ops": ops})
 }
 
 pub fn main(a: &Args) {
-    drive(a, |rng, _| gen(rng), |out, sc, s| run_one(out, sc, s));
+    let minada_only = a.flags.iter().any(|f| f == "--minada");
+    drive(a, |rng, i| if minada_only || i % 8 == 7 { gen_minada(rng) } else { gen(rng) }, |out, sc, s| run_one(out, sc, s));
 }
